@@ -670,6 +670,17 @@ class ExprMixin:
             return k(FuncVal("bound_builtin", name="opaque." + attr, self_val=obj), st)
         # data field?
         fd = None
+        if cn in (None, "type", "object"):
+            # statically unknown class: the attribute exists iff the dynamic class is (a subclass of) its declaring model
+            owners = [m.name for m in self.reg.models.values() if attr in m.fields or (attr in m.ghost and st.frame.spec)]
+            if len(owners) == 1 and attr not in ("close", "send", "throw", "__await__", "cr_frame"):
+                own = owners[0]
+                narrowed = Val(REF(own), obj.t)
+                if st.frame.spec:
+                    return self.object_attr(narrowed, attr, st, k)
+                return self.split(st, z3.And(obj.t != NULL, subclass(cls_of(obj.t), cls_const(own))),
+                                  lambda s: self.object_attr(narrowed, attr, s, k),
+                                  lambda s: self.raise_exc(s, "AttributeError", attr), label="hasattr(%s)" % attr)
         try:
             fd = self.field_decl(cn, attr)
         except Unsupported:
